@@ -23,3 +23,5 @@ def run(project, rep):
     rep.run(E.e_r7_reiterable_class_tables, project, rep)
     rep.run(E.e_r8_memo_keys, project, rep, thorough=(rep.tier == "thorough"))
     rep.run(E.e_r9_no_process_wide_settings, project, rep, thorough=(rep.tier == "thorough"))
+    from .. import rules_parser as _P9
+    rep.run(_P9.p_r9_convert_built_on_every_call, project, rep)
